@@ -8,7 +8,14 @@ static Verdict run_c05(const Case &c)
   Verdict v;
   EncCase e = enc_from(c);
   std::string kind = c.get("kind", "edits");
-  bytes base = ref::encrypt_file(e.P, fparams(e));
+  bytes base = base_file(e, c.geti("toolbase") != 0);
+  if (base.size() < 84)
+  {
+    v.classes.push_back("toolbase_unavailable");
+    return v;
+  }
+  if (c.geti("toolbase"))
+    v.classes.push_back("base_written_by_the_tool");
   int hl = ref::Hash::hlen(e.hmode);
   size_t body = 48 + 20 * (size_t)e.T;
   std::vector<bytes> files;
@@ -177,6 +184,7 @@ static Case gen_c05()
 {
   Case c;
   gen_base5(c);
+  c.seti("toolbase", g::coin(50) ? 1 : 0);
   long k = g::range(0, 100);
   size_t plen = (size_t)c.geti("plen");
   int T = (int)c.geti("T"), chunk = (int)c.geti("chunk");
